@@ -41,3 +41,59 @@ reg("C08",
     H("c08_p8_to_p32", "c08::p8_to_p32", unwind=33, funcs=["P32E2::from_p8e0", "P8E0::from_p32e2"], space_bits=8, bound="every P8E0 bit pattern"),
     H("c08_p8_to_p16", "c08::p8_to_p16", unwind=17, funcs=["P16E1::from_p8e0", "P8E0::from_p16e1"], space_bits=8, bound="every P8E0 bit pattern"),
     )
+
+TYPES = [("p8", "P8E0", 8, 9), ("p16", "P16E1", 16, 17), ("p32", "P32E2", 32, 33)]
+FMT_STUB = ("<f64 as core::fmt::Display>::fmt", "vh::stubs::f64_fmt_stub")
+PARSE_STUB = ("<f64 as core::str::FromStr>::from_str", "vh::stubs::f64_from_str_stub")
+
+# ------------------------------------------------------------------ C02
+for t, T, n, uw in TYPES:
+    reg("C02",
+        H("c02_%s_from_f32" % t, "c02::%s::from_f32" % t, unwind=uw + 16, covers=2, funcs=["%s::from_f32" % T, "From<f32> for %s" % T], space_bits=32, bound="every f32 bit pattern (NaN, infinities, subnormals included)"),
+        H("c02_%s_from_f64" % t, "c02::%s::from_f64" % t, unwind=uw + 16, covers=2, funcs=["%s::from_f64" % T, "From<f64> for %s" % T], space_bits=64, bound="every f64 bit pattern"),
+        H("c02_%s_f32_f64_agree" % t, "c02::%s::f32_f64_agree" % t, unwind=uw + 16, funcs=["%s::from_f32" % T, "%s::from_f64" % T], space_bits=32, bound="every f32 bit pattern; widening cast by CBMC's IEEE model"),
+        )
+
+# ------------------------------------------------------------------ C03
+for t, T, n, uw in TYPES:
+    reg("C03",
+        H("c03_%s_to_f64" % t, "c03::%s::to_f64" % t, unwind=uw, funcs=["%s::to_f64" % T, "From<%s> for f64" % T], space_bits=n, bound="every %s bit pattern" % T),
+        H("c03_%s_to_f32" % t, "c03::%s::to_f32" % t, unwind=uw, funcs=["%s::to_f32" % T, "From<%s> for f32" % T], space_bits=n, bound="every %s bit pattern" % T),
+        H("c03_%s_f64_roundtrip" % t, "c03::%s::f64_roundtrip" % t, unwind=uw + 16, funcs=["%s::to_f64" % T, "%s::from_f64" % T], space_bits=n, bound="every %s bit pattern" % T),
+        H("c03_%s_display_wiring" % t, "c03::%s::display_wiring" % t, unwind=uw, stubs=[FMT_STUB], funcs=["Display for %s" % T], space_bits=n,
+          bound="every %s bit pattern; f64 formatting replaced by a recording stub (std contract: `{}` prints a string that parses back to the same f64)" % T),
+        H("c03_%s_fromstr_wiring" % t, "c03::%s::fromstr_wiring" % t, unwind=uw + 16, stubs=[PARSE_STUB], funcs=["FromStr for %s" % T], space_bits=64,
+          bound="every f64 the std parser can return; f64 parsing replaced by a stub returning an arbitrary f64"),
+        )
+
+# ------------------------------------------------------------------ C07
+for t, T, n, uw in TYPES:
+    for f, bits in (("from_i64", 64), ("from_u64", 64), ("from_i32", 32), ("from_u32", 32)):
+        reg("C07", H("c07_%s_%s" % (t, f), "c07::%s::%s" % (t, f), unwind=66, funcs=["%s::%s" % (T, f)] + (["%s::from_isize" % T] if f == "from_i64" else ["%s::from_usize" % T] if f == "from_u64" else ["%s::from_i16" % T, "%s::from_i8" % T] if f == "from_i32" else ["%s::from_u16" % T, "%s::from_u8" % T]),
+                     space_bits=bits, bound="every %d-bit integer" % bits))
+    for f in ("to_i32", "to_u32", "to_i64", "to_u64"):
+        reg("C07", H("c07_%s_%s" % (t, f), "c07::%s::%s" % (t, f), unwind=uw, funcs=["%s::%s" % (T, f)], space_bits=n, bound="every non-NaR %s bit pattern" % T))
+
+# ------------------------------------------------------------------ C09
+for t, T, n, uw in TYPES:
+    for f in ("round", "floor", "ceil", "trunc", "fract"):
+        reg("C09", H("c09_%s_%s" % (t, f), "c09::%s::%s" % (t, f), unwind=uw, funcs=["%s::%s" % (T, f)], space_bits=n, bound="every %s bit pattern" % T))
+
+# ------------------------------------------------------------------ C10
+for t, T, n, uw in TYPES:
+    reg("C10",
+        H("c10_%s_compare" % t, "c10::%s::compare" % t, unwind=uw, funcs=["%s: ==,!=,<,<=,>,>=,eq,lt,le,gt,ge,cmp,Ord,PartialOrd,min,max" % T], space_bits=2 * n, bound="every operand pair"),
+        H("c10_%s_clamp" % t, "c10::%s::clamp" % t, unwind=uw, funcs=["%s::clamp" % T], space_bits=3 * n, bound="every triple with lo <= hi"),
+        H("c10_%s_unary" % t, "c10::%s::unary" % t, unwind=uw, funcs=["%s: neg, abs, signum, is_sign_positive, is_sign_negative, is_zero, is_nar, is_nan, is_finite, classify" % T], space_bits=n, bound="every bit pattern"),
+        H("c10_%s_copysign" % t, "c10::%s::copysign" % t, unwind=uw, funcs=["%s::copysign" % T], space_bits=2 * n, bound="every pair with a non-NaR sign source"),
+        )
+C10_QUICK_N = {2, 3, 4, 5, 8, 13, 16, 24, 31, 32}
+for es, P in ((1, "pxe1"), (2, "pxe2")):
+    for N in range(2, 33):
+        reg("C10", H("c10_%s_compare_%d" % (P, N), "c10::%s::compare" % P, gen=str(N), unwind=34, tier="quick" if N in C10_QUICK_N else "thorough",
+                     funcs=["Px%s<%d>: ==,!=,<,<=,>,>=,eq,lt,le,gt,ge,cmp,Ord,PartialOrd,is_zero,is_nar" % (P[2:].upper(), N)], space_bits=2 * N, bound="every pair of %d-bit patterns (low %d bits zero)" % (N, 32 - N)))
+
+# ------------------------------------------------------------------ C19
+for t, T, n, uw in TYPES:
+    reg("C19", H("c19_%s_sample" % t, "c19::%s::sample" % t, unwind=uw + 2, covers=2, funcs=["Distribution<%s> for Standard" % T, "%s::sub" % T], space_bits=96,
+                 bound="every RNG stream of <= 3 arbitrary words followed by zeros"))
